@@ -3,3 +3,4 @@ pub mod plan;
 pub mod rec;
 pub mod seams;
 pub mod sim;
+pub mod conc;
